@@ -111,7 +111,14 @@ pzgstrf_pivotL(
 
     /* Test for singularity */
     if ( pivmax == 0.0 ) {
-	*pivrow = lsub_ptr[pivptr];
+	if ( pivptr < nsupr ) {
+	    *pivrow = lsub_ptr[pivptr];
+	} else {
+	    /* The column has no candidate row at all (structurally
+	       singular): lsub_ptr[pivptr] would be read past the end
+	       of the row list. */
+	    *pivrow = diagind;
+	}
 	perm_r[*pivrow] = jcol;
 	inv_perm_r[jcol] = *pivrow;
 	*usepr = NO;
